@@ -332,6 +332,7 @@ func c11Units(tier string) []hx.Unit {
 				_, _ = svc.ValidatorRegistrations(ctx, []*relaytypes.SignedValidatorRegistration{
 					{Message: &relaytypes.ValidatorRegistration{FeeRecipient: bellatrix.ExecutionAddress{0xee}, GasLimit: 12345, Timestamp: mc.Base, Pubkey: ext.pubkey()}, Signature: phase0.BLSSignature{0xe1}},
 					{Message: &relaytypes.ValidatorRegistration{FeeRecipient: bellatrix.ExecutionAddress{0xee}, GasLimit: 12345, Timestamp: mc.Base, Pubkey: e.accts[3].pubkey()}, Signature: phase0.BLSSignature{0xe2}},
+					{Message: &relaytypes.ValidatorRegistration{FeeRecipient: bellatrix.ExecutionAddress{0xee}, GasLimit: 12345, Timestamp: mc.Base, Pubkey: newAccount("X", "ext2", 10).pubkey()}, Signature: phase0.BLSSignature{0xe3}},
 				})
 				mc.Sleep(int64(time.Minute))
 				e.done = true
@@ -463,12 +464,15 @@ func c11Check(e *c11Env, r *mc.Result) mc.Verdict {
 	// resolved settings; the controlled validator's is dropped
 	if e.fwd {
 		last := docs[e.docs[len(e.docs)-1]]
-		extPub := newAccount("X", "ext", 9).pubkey()
+		extPub, ext2Pub := newAccount("X", "ext", 9).pubkey(), newAccount("X", "ext2", 10).pubkey()
 		for _, addr := range []string{c11R1, c11R2} {
-			var ext, own []c11Reg
+			var ext, ext2, own []c11Reg
 			for _, g := range e.relays[addr].regs {
 				if g.round == 99 && g.pubkey == extPub {
 					ext = append(ext, g)
+				}
+				if g.round == 99 && g.pubkey == ext2Pub {
+					ext2 = append(ext2, g)
 				}
 				if g.round == 99 && g.pubkey == e.accts[3].pubkey() {
 					own = append(own, g)
@@ -489,9 +493,18 @@ func c11Check(e *c11Env, r *mc.Result) mc.Verdict {
 			if listed && len(ext) != 1 {
 				return fail("uncontrolled-registration-not-forwarded", fmt.Sprintf("the REST registration of a validator vouch does not control reached %s %d times", addr, len(ext)))
 			}
+			if listed && len(ext2) != 1 {
+				return fail("uncontrolled-registration-not-forwarded", fmt.Sprintf("the REST registration of a validator vouch does not control, which came after a controlled validator's in the same request, reached %s %d times", addr, len(ext2)))
+			}
 			if len(ext) == 1 {
 				g := ext[0]
 				if g.gas != 12345 || g.sig != (phase0.BLSSignature{0xe1}) || !strings.HasPrefix(g.fee, "0xee") {
+					return fail("uncontrolled-registration-altered", "the forwarded REST registration was altered")
+				}
+			}
+			if len(ext2) == 1 {
+				g := ext2[0]
+				if g.gas != 12345 || g.sig != (phase0.BLSSignature{0xe3}) || !strings.HasPrefix(g.fee, "0xee") {
 					return fail("uncontrolled-registration-altered", "the forwarded REST registration was altered")
 				}
 			}
